@@ -7,6 +7,8 @@ import (
 	"crypto/rand"
 	"crypto/sha256"
 	"crypto/x509"
+	"crypto/x509/pkix"
+	"encoding/asn1"
 	"encoding/hex"
 	"errors"
 	"fmt"
@@ -135,16 +137,58 @@ func (pl *pool) entrySize(base, delta *bund) (int64, error) {
 	return st.Size(), nil
 }
 
+// crlOpts: what distinguishes a minted CRL beyond its number
+type crlOpts struct {
+	entries    int           // revoked certificates
+	pad        int           // bytes of an opaque, non-critical private extension (reaches a size cheaply)
+	thisUpdate time.Duration // relative to now (default -1h)
+	deltaOf    int64         // > 0: a delta CRL indicator naming this base CRL number
+	absLen     int
+}
+
+var oidDeltaCRLIndicator = asn1.ObjectIdentifier{2, 5, 29, 27}
+var oidPadding = asn1.ObjectIdentifier{1, 3, 6, 1, 4, 1, 99999, 14, 1}
+
 func makeBundle(ca *common.Cert, number int64, entries int, dir string, absLen int) (*bund, error) {
+	return makeCRL(ca, number, dir, crlOpts{entries: entries, absLen: absLen})
+}
+
+func makeCRL(ca *common.Cert, number int64, dir string, o crlOpts) (*bund, error) {
 	now := time.Now()
+	if o.thisUpdate == 0 {
+		o.thisUpdate = -time.Hour
+	}
+	entries, absLen := o.entries, o.absLen
 	tpl := &x509.RevocationList{
 		Number:     big.NewInt(number),
-		ThisUpdate: now.Add(-time.Hour),
+		ThisUpdate: now.Add(o.thisUpdate),
 		NextUpdate: now.Add(10 * 365 * 24 * time.Hour),
+	}
+	if o.deltaOf > 0 {
+		v, err := asn1.Marshal(big.NewInt(o.deltaOf))
+		if err != nil {
+			return nil, err
+		}
+		tpl.ExtraExtensions = append(tpl.ExtraExtensions, pkix.Extension{Id: oidDeltaCRLIndicator, Critical: true, Value: v})
+	}
+	if o.pad > 0 {
+		padding := make([]byte, o.pad)
+		if _, err := rand.Read(padding); err != nil {
+			return nil, err
+		}
+		v, err := asn1.Marshal(padding) // OCTET STRING
+		if err != nil {
+			return nil, err
+		}
+		tpl.ExtraExtensions = append(tpl.ExtraExtensions, pkix.Extension{Id: oidPadding, Value: v})
+	}
+	serialBase := number * 1_000_000
+	if serialBase < 0 {
+		serialBase = -serialBase
 	}
 	for i := 0; i < entries; i++ {
 		tpl.RevokedCertificateEntries = append(tpl.RevokedCertificateEntries, x509.RevocationListEntry{
-			SerialNumber:   big.NewInt(number*1_000_000 + int64(i) + 1),
+			SerialNumber:   big.NewInt(serialBase + int64(i) + 1),
 			RevocationTime: now.Add(-2 * time.Hour),
 		})
 	}
@@ -156,12 +200,13 @@ func makeBundle(ca *common.Cert, number int64, entries int, dir string, absLen i
 	if err != nil {
 		return nil, err
 	}
-	p := filepath.Join(dir, fmt.Sprintf("bundle-%d.der", number))
+	mintSeq++
+	p := filepath.Join(dir, fmt.Sprintf("crl-%d-%d.der", mintSeq, number))
 	if err := os.WriteFile(p, der, 0o600); err != nil {
 		return nil, err
 	}
 	// reference size of the complete entry: store it once in a scratch cache
-	ref := filepath.Join(dir, fmt.Sprintf("ref-%d", number))
+	ref := filepath.Join(dir, fmt.Sprintf("ref-%d-%d", mintSeq, number))
 	fc, err := crl.NewFileCache(ref)
 	if err != nil {
 		return nil, err
@@ -173,8 +218,11 @@ func makeBundle(ca *common.Cert, number int64, entries int, dir string, absLen i
 	if err != nil {
 		return nil, fmt.Errorf("reference entry: %w", err)
 	}
+	os.RemoveAll(ref)
 	return &bund{rl: rl, path: p, absLen: absLen, fileSize: st.Size()}, nil
 }
+
+var mintSeq int
 
 func keyName(url string) string {
 	h := sha256.Sum256([]byte(url))
@@ -321,6 +369,14 @@ func (w *world) classify(b *corecrl.Bundle, err error) ReadObs {
 		}
 	}
 	return o
+}
+
+// forget releases the memory of a (big) CRL that no later experiment uses; its id stays taken.
+func (pl *pool) forget(b *bund) {
+	if b != nil {
+		pl.all[b.id-1] = &bund{id: b.id, rl: &x509.RevocationList{}}
+		os.Remove(b.path)
+	}
 }
 
 func (pl *pool) lookup(raw []byte) int {
